@@ -142,13 +142,23 @@ func genC05(g *Gen, tier string) *Case {
 	if tier == "thorough" {
 		n = g.Pick(0, 1, 5, 20, 60, 300, 1000)
 	}
+	// in a third of the cases the estimate is read with fixed flags after every update, so that
+	// "the estimate grows with the number of distinct elements" is checked step by step; small
+	// key spaces ("user-<i>") make several elements share a register
+	track := g.Chance(0.35)
+	wc, wr := g.Intn(2), g.Intn(2)
 	for j := 0; j < n; j++ {
 		x := []byte(fmt.Sprintf("e%d-%d", g.Intn(1<<30), j))
+		if track {
+			x = []byte(fmt.Sprintf("user-%d", g.Intn(4*n+4)))
+		}
 		if g.Chance(0.1) {
 			x = g.ElementPool(1, true)[0]
 		}
 		ops = append(ops, TL(TNi(hlUpdate), TNi(0), TBs(x)))
-		if g.Chance(0.1) {
+		if track {
+			ops = append(ops, TL(TNi(hlCount), TNi(0), TNi(wc), TNi(wr)))
+		} else if g.Chance(0.1) {
 			ops = append(ops, hllCountOp(g, 0))
 		}
 	}
@@ -225,6 +235,7 @@ func monitorHLL(backend, prop string) Monitor {
 			m    uint64
 			set  map[string]bool
 			regs string // last observed registers
+			last map[string]uint64 // last Count per flag combination since the last non-monotone operation
 		}
 		st := map[int]*sh{}
 		regsBySet := map[string]string{} // (m, canonical set) -> registers
@@ -237,10 +248,15 @@ func monitorHLL(backend, prop string) Monitor {
 		}
 		for step, op := range ops {
 			a, o := op.L, obs[step]
+			if a[0].I() >= 20 && len(a) > 1 { // persistence operations may replace the whole state
+				if s := st[a[1].I()]; s != nil {
+					s.last = map[string]uint64{}
+				}
+			}
 			switch a[0].I() {
 			case hlNew:
 				if isOk(o) {
-					st[a[1].I()] = &sh{m: a[2].U(), set: map[string]bool{}}
+					st[a[1].I()] = &sh{m: a[2].U(), set: map[string]bool{}, last: map[string]uint64{}}
 				}
 			case hlUpdate:
 				s := st[a[1].I()]
@@ -263,6 +279,14 @@ func monitorHLL(backend, prop string) Monitor {
 				if s == nil || prop != "C05" || len(a) < 5 {
 					continue
 				}
+				// "the estimate grows with the number of distinct elements": registers only ever rise
+				// under Update and Merge, so a later Count with the same flags is never smaller
+				fk := a[2].String() + a[3].String()
+				if prev, ok := s.last[fk]; ok && a[4].U() < prev {
+					out = append(out, MonViolation{backend + "/Count/decreases",
+						fmt.Sprintf("m=%d: Count fell from %d to %d although only updates/merges happened in between", s.m, prev, a[4].U()), step})
+				}
+				s.last[fk] = a[4].U()
 				c := float64(a[4].U())
 				n := float64(len(s.set))
 				tol := 5 * 1.04 / math.Sqrt(float64(s.m))
@@ -274,6 +298,10 @@ func monitorHLL(backend, prop string) Monitor {
 				} else if n >= 20 && s.m >= 16 && math.Abs(c-n)/n > tol+0.3 {
 					out = append(out, MonViolation{backend + "/Count/inaccurate",
 						fmt.Sprintf("m=%d n=%v estimate=%v (relative error %.2f > %.2f)", s.m, n, c, math.Abs(c-n)/n, tol+0.3), step})
+				}
+			case hlReset:
+				if s := st[a[1].I()]; s != nil {
+					s.last = map[string]uint64{}
 				}
 			case hlRegs:
 				s := st[a[1].I()]
